@@ -292,7 +292,11 @@ func visitInstr(fr *frame, instr ssa.Instruction) continuation {
 		chanSend(fr.get(instr.Chan), fr.get(instr.X))
 
 	case *ssa.Store:
-		store(mustDeref(instr.Addr.Type()), fr.get(instr.Addr).(*value), fr.get(instr.Val))
+		addr := fr.get(instr.Addr)
+		if sp, ok := addr.(symptr); ok {
+			addr = &sp.seq[E.index(sp.idx, len(sp.seq))]
+		}
+		store(mustDeref(instr.Addr.Type()), addr.(*value), fr.get(instr.Val))
 
 	case *ssa.If:
 		succ := 1
@@ -380,8 +384,16 @@ func visitInstr(fr *frame, instr ssa.Instruction) continuation {
 		idx := fr.get(instr.Index)
 		switch x := x.(type) {
 		case []value:
+			if si, ok := idx.(sym); ok && len(x) > 8 {
+				fr.env[instr] = symptr{x, si}
+				break
+			}
 			fr.env[instr] = &x[E.index(idx, len(x))]
 		case *value: // *array
+			if si, ok := idx.(sym); ok && len((*x).(array)) > 8 {
+				fr.env[instr] = symptr{[]value((*x).(array)), si}
+				break
+			}
 			fr.env[instr] = &(*x).(array)[E.index(idx, len((*x).(array)))]
 		default:
 			panic(fmt.Sprintf("unexpected x type in IndexAddr: %T", x))
@@ -391,6 +403,21 @@ func visitInstr(fr *frame, instr ssa.Instruction) continuation {
 		x := fr.get(instr.X)
 		idx := fr.get(instr.Index)
 
+		if si, ok := idx.(sym); ok {
+			var seq []value
+			switch x := x.(type) {
+			case array:
+				seq = []value(x)
+			case string:
+				seq = strElems(x)
+			}
+			if len(seq) > 8 {
+				if t, ok := E.tableTerm(seq, si); ok {
+					fr.env[instr] = t
+					break
+				}
+			}
+		}
 		switch x := x.(type) {
 		case array:
 			fr.env[instr] = x[E.index(idx, len(x))]
@@ -481,7 +508,12 @@ func call(i *interpreter, caller *frame, callpos token.Pos, fn value, args []val
 	switch fn := fn.(type) {
 	case *ssa.Function:
 		if fn == nil {
-			panic("call of nil function") // nil of func type
+			E.rtPanic("invalid memory address or nil pointer dereference (call of nil func)")
+		}
+		if isTabulated(fn) {
+			if r, ok := tryTabulate(i, caller, fn, args); ok {
+				return r
+			}
 		}
 		if i.inited != nil && caller != nil && fn.Name() == "init" && fn.Synthetic != "" && caller.fn.Name() == "init" && caller.fn.Pkg != fn.Pkg {
 			return nil // imported package init: done lazily
